@@ -1511,7 +1511,8 @@ func (e *CoreExtension) filterSlice(value interface{}, args ...interface{}) (int
 	}
 
 	// Default length is to the end
-	length := -1
+	length := 0
+	hasLength := false
 	if len(args) > 1 {
 		// Make sure we can convert the second argument to an integer
 		if args[1] != nil {
@@ -1519,6 +1520,7 @@ func (e *CoreExtension) filterSlice(value interface{}, args ...interface{}) (int
 			if err != nil {
 				return nil, err
 			}
+			hasLength = true
 		}
 	}
 
@@ -1545,12 +1547,14 @@ func (e *CoreExtension) filterSlice(value interface{}, args ...interface{}) (int
 
 		// Calculate end index
 		end := runeCount
-		if length >= 0 {
+		if !hasLength {
+			// to the end
+		} else if length >= 0 {
 			end = start + length
 			if end > runeCount {
 				end = runeCount
 			}
-		} else if length < 0 {
+		} else {
 			// Negative length means count from the end
 			end = runeCount + length
 			if end < start {
@@ -1577,12 +1581,14 @@ func (e *CoreExtension) filterSlice(value interface{}, args ...interface{}) (int
 
 		// Calculate end index
 		end := count
-		if length >= 0 {
+		if !hasLength {
+			// to the end
+		} else if length >= 0 {
 			end = start + length
 			if end > count {
 				end = count
 			}
-		} else if length < 0 {
+		} else {
 			// Negative length means count from the end
 			end = count + length
 			if end < start {
@@ -1616,12 +1622,14 @@ func (e *CoreExtension) filterSlice(value interface{}, args ...interface{}) (int
 
 		// Calculate end index
 		end := runeCount
-		if length >= 0 {
+		if !hasLength {
+			// to the end
+		} else if length >= 0 {
 			end = start + length
 			if end > runeCount {
 				end = runeCount
 			}
-		} else if length < 0 {
+		} else {
 			// Negative length means count from the end
 			end = runeCount + length
 			if end < start {
@@ -1648,12 +1656,14 @@ func (e *CoreExtension) filterSlice(value interface{}, args ...interface{}) (int
 
 		// Calculate end index
 		end := count
-		if length >= 0 {
+		if !hasLength {
+			// to the end
+		} else if length >= 0 {
 			end = start + length
 			if end > count {
 				end = count
 			}
-		} else if length < 0 {
+		} else {
 			// Negative length means count from the end
 			end = count + length
 			if end < start {
